@@ -76,6 +76,11 @@ func gen(seed int64, tier string, idx int) *pipe.Scenario {
 		sc.Steps = append(sc.Steps, pipe.Step{AtEvent: -1, Op: fmt.Sprintf("reconf:%d", genNo)}) // idle
 	}
 	sc.Steps = append(sc.Steps, pipe.Step{AtEvent: 0, Op: "guarded-update"})
+	if idx%10 == 4 {
+		// a request whose caller gives up while the node is opening its new processor,
+		// with a second request staged behind it: the second one must still be answered
+		sc.Steps[0].Op = "reconf-cancel-open:2"
+	}
 	return sc
 }
 
@@ -126,6 +131,41 @@ func hooks(sc *pipe.Scenario) *pipe.Hooks {
 					})
 				}()
 			}
+			wg.Wait()
+			return true
+		case "reconf-cancel-open":
+			g, _ := strconv.Atoi(parts[1])
+			st := r.Procs.Proc(target)
+			if st.Script.OpenLatencyUs == nil {
+				st.Script.OpenLatencyUs = map[int]int{}
+			}
+			st.Script.OpenLatencyUs[g] = 25000
+			if err := update(g); err != nil {
+				return true
+			}
+			base := len(r.Log.Snapshot())
+			var wg sync.WaitGroup
+			wg.Add(1)
+			go func() {
+				defer wg.Done()
+				cctx, cancel := context.WithTimeout(ctx, 6*time.Millisecond)
+				defer cancel()
+				_ = r.Ctl("Reconfigure", strconv.Itoa(g)+":gives-up", func() error {
+					return r.V1.ReconfigureProcessor(cctx, sc.Topo.Pipeline, target)
+				})
+			}()
+			// pacing: the node has claimed the first request and is opening the new processor
+			r.Log.WaitFor(func(evs []rig.Ev) bool {
+				for q := base; q < len(evs); q++ {
+					if evs[q].Kind == rig.KNote && evs[q].Note == "open-start" && evs[q].Comp == target {
+						return true
+					}
+				}
+				return false
+			}, 2*time.Second)
+			_ = r.Ctl("Reconfigure", strconv.Itoa(g), func() error {
+				return r.V1.ReconfigureProcessor(ctx, sc.Topo.Pipeline, target)
+			})
 			wg.Wait()
 			return true
 		case "reconf-cancel":
